@@ -1,15 +1,25 @@
 """C32 - The generator feeds the model a consistent token history.
 
-Generator.tla is the contract as a state machine (pending tokens, next position, cache version,
-prev_tokens, history variables); TLC model-checks its invariants (positions contiguous, every
-pending token submitted exactly once, cache hand-off, prev = first occurrences of everything
-submitted/produced) and the implementation-shaped GeneratorImpl.tla against the same invariants.
+Generator.tla is the contract as a state machine over every public call that touches the token
+history, the pending input or the KV cache: with_prompt (builder style, callable at any time: it sets
+the pending list), append_prompt, clear_prompt, process_prompt, next.  State: pending tokens, next
+position (= number of tokens in the KV cache = kv_cache_len()), cache version, prev_tokens, and
+history variables for everything the model received.  TLC model-checks its invariants (positions
+contiguous and equal to the cache length, every token instance submitted exactly once / still
+pending / dropped, cache hand-off, prev_tokens = first occurrences of everything submitted or
+produced).  GeneratorImpl.tla transcribes generate_impl with the offset rule behind a constant:
+"add_fed" (`input_offset += input_ids.len()`, the code) satisfies the invariants, "prev_len"
+(`input_offset = prev_tokens.len()`) violates PositionsContiguous as soon as a sampled token is
+dropped unfed -- shown by TLC at design level.
 spec -> impl: TLC emits every call history up to the bound for a model with and without KV cache;
-vh-gen replays each on a real rten_generate::Generator over a recording mock Model;
-Trace_Generator.tla (which *is* the contract machine driven by the trace) judges every call."""
+vh-gen replays each on a real rten_generate::Generator over a recording mock Model (in lexicographic
+order, sharing already-judged prefixes); Trace_Generator.tla (which *is* the contract machine driven
+by the trace) judges every call: tokens fed, position_ids / cache_position / varying-input range,
+contents and version of every cache tensor handed in, prev_tokens(), kv_cache_len()."""
 import json
 import os
 import sys
+from concurrent.futures import ThreadPoolExecutor
 
 import vlib
 
@@ -18,66 +28,82 @@ import _genlib  # noqa: E402
 
 SPEC = "gen/Trace_Generator"
 CFG = "gen/Trace_Generator.cfg"
+MC = "gen/MC_Generator"
 
 
 def run(ctx):
     ctx.build(["vh-gen"])
     if ctx.replay:
         return replay(ctx)
-    hist_all = ctx.path("hist_all.jsonl")
-    # 1. the contract machine and its invariants (+ in the quick tier the same run emits the histories)
+    # 1. the contract machine: invariants + every history up to the bound
+    files = []
     if ctx.quick:
-        nh = _genlib.mc_and_generate(ctx, "gen/MC_Generator", "gen/MC_Generator_mcgen5.cfg", hist_all, workers=4,
-                                     timeout=1500, label="contract invariants + every history of <= 5 calls")
+        spaces = [("mcgen4", "every history of <= 4 calls, prompt lengths 0/1/2"),
+                  ("mcgen5s", "every history of <= 5 calls, prompt lengths 0/1")]
     else:
-        ctx.tlc_mc("gen/MC_Generator", "gen/MC_Generator_mc7.cfg", workers=4, timeout=1500, label="contract invariants")
-        nh = ctx.tlc_generate("gen/MC_Generator", "gen/MC_Generator_gen6.cfg", hist_all, workers=4, timeout=1500)
-    # 2. implementation-shaped transcription against the contract invariants
-    ctx.tlc_mc("gen/GeneratorImpl", "gen/GeneratorImpl_ok.cfg", workers=4, timeout=900,
-               label="GeneratorImpl: positions / exactly-once / cache hand-off")
-    info, out = ctx.tlc_mc("gen/GeneratorImpl", "gen/GeneratorImpl_prev.cfg", workers=4, timeout=900,
-                           expect_ok=False, label="GeneratorImpl: PrevIsHistory (candidate search)")
-    candidate = "Invariant PrevIsHistory is violated" in out
-    if not candidate and not info["ok"]:
-        raise vlib.ToolError("GeneratorImpl_prev.cfg neither completed nor produced a counterexample")
-    ctx.cov["impl_candidate_prev"] = candidate
-    ctx.cov["notes"].append(
-        "design-level: TLC %s a counterexample to PrevIsHistory in GeneratorImpl (a candidate only; "
-        "the verdict comes from the replayed trace)" % ("found" if candidate else "did not find"))
-    # 3. every history up to the bound (+ thorough: a seeded sample one call deeper)
-    lines = open(hist_all).read().splitlines()
-    nsampled = 0
-    if not ctx.quick:
-        deep = ctx.path("hist_deep.jsonl")
-        nd = ctx.tlc_generate("gen/MC_Generator", "gen/MC_Generator_gen7.cfg", deep, workers=4, timeout=1800)
-        sample = ctx.path("hist_deep_sample.jsonl")
-        nsampled = vlib.sample_lines(deep, sample, 60000, ctx.seed)
-        lines += open(sample).read().splitlines()
-        ctx.cov["histories_7_calls_generated"] = nd
-        os.remove(deep)
-    # 4. replay on the real Generator, in chunks validated in parallel
-    per = (len(lines) + 3) // 4 if ctx.quick else 12000
-    chunks = [lines[i:i + per] for i in range(0, len(lines), per)]
-    traces = []
-    for i, ch in enumerate(chunks):
+        ctx.tlc_mc(MC, "gen/MC_Generator_mc6.cfg", workers=4, timeout=2400, label="contract invariants, <= 6 calls, lengths 0/1/2")
+        ctx.tlc_mc(MC, "gen/MC_Generator_mc5.cfg", workers=4, timeout=2400, label="contract invariants, two sampled-token values")
+        spaces = [("mcgen5", "every history of <= 5 calls, prompt lengths 0/1/2"),
+                  ("gen6s", "every history of <= 6 calls, prompt lengths 0/1")]
+    nh = 0
+    for name, label in spaces:
+        out = ctx.path("hist_%s.jsonl" % name)
+        nh += _genlib.mc_and_generate(ctx, MC, "gen/MC_Generator_%s.cfg" % name, out, workers=4, timeout=2400,
+                                      label="contract invariants + " + label)
+        files.append(out)
+    # 2. implementation-shaped transcription: the code's offset rule and the tempting rewrite
+    ctx.tlc_mc("gen/GeneratorImpl", "gen/GeneratorImpl_add_fed.cfg", workers=4, timeout=900,
+               label="GeneratorImpl, input_offset += input_ids.len(): all contract invariants")
+    info, out = ctx.tlc_mc("gen/GeneratorImpl", "gen/GeneratorImpl_prev_len.cfg", workers=4, timeout=900,
+                           expect_ok=False, label="GeneratorImpl, input_offset = prev_tokens.len(): counterexample expected")
+    if "Invariant PositionsContiguous is violated" not in out:
+        raise vlib.ToolError("GeneratorImpl with OffsetRule = prev_len did not violate PositionsContiguous "
+                             "(the design-level demonstration is broken)")
+    ctx.cov["notes"].append("design-level: TLC finds the PositionsContiguous counterexample for the offset rule "
+                            "`input_offset = prev_tokens.len()` (drop a sampled token with clear_prompt/with_prompt, then run the model)")
+    # 3. the histories, deduplicated and sorted so that neighbours share prefixes
+    seen = set()
+    hs = []
+    for f in files:
+        for line in open(f):
+            line = line.strip()
+            if line and line not in seen:
+                seen.add(line)
+                hs.append(json.loads(line))
+    hs.sort(key=lambda h: (h["kv"], [(o["op"], o["toks"]) for o in h["ops"]]))
+    # 4. replay on the real Generator (chunks in parallel), then validate the traces in parallel
+    nchunks = 4 if ctx.quick else 12
+    per = (len(hs) + nchunks - 1) // nchunks
+    jobs = []
+    for i in range(nchunks):
+        part = hs[i * per:(i + 1) * per]
+        if not part:
+            continue
         hp = ctx.path("hist_%03d.jsonl" % i)
         with open(hp, "w") as f:
-            f.write("\n".join(ch) + "\n")
-        tp = ctx.path("gen_%03d.ndjson" % i)
-        ctx.harness("vh-gen", ["generator", "--hist", hp, "--out", tp, "--variants", 2, "--salt", i])
-        traces.append(tp)
+            for h in part:
+                f.write(json.dumps(h) + "\n")
+        jobs.append((hp, ctx.path("gen_%03d.ndjson" % i), i))
+
+    def harness(job):
+        hp, tp, i = job
+        ctx.harness("vh-gen", ["generator", "--hist", hp, "--out", tp, "--variants", 1 if ctx.quick else 2, "--salt", i])
+        return tp
+
+    with ThreadPoolExecutor(max_workers=4) as ex:
+        traces = list(ex.map(harness, jobs))
     res = _genlib.parallel_trace(ctx, SPEC, CFG, traces, workers=4)
     if not ctx.quick:
-        self_test(ctx, traces[0])
-    finish(ctx, traces, res, nh, len(lines), nsampled)
+        self_test(ctx, traces[-1])
+    finish(ctx, traces, res, nh, len(hs))
 
 
 def self_test(ctx, trace):
     """Corrupt single recorded fields of real trace records; Trace_Generator must object."""
-    recs = _genlib.split_cases(trace, 1500)
+    recs = _genlib.split_cases(trace, 2500)
 
     def kv_run(r):
-        return r["ev"] == "op" and r["runs"] and r["runs"][0]["kv_in"] and r["runs"][0]["pos"] and r["runs"][0]["pos"][0] > 0
+        return r["ev"] == "op" and r["runs"] and r["runs"][0]["kv_in"]["lens"] and r["runs"][0]["pos"] and r["runs"][0]["pos"][0] > 0
 
     def on_first(pred, edit):
         def fn(rs):
@@ -91,11 +117,17 @@ def self_test(ctx, trace):
     def bump_pos(r):
         r["runs"][0]["pos"][0] += 1
 
+    def bump_cpos(r):
+        r["runs"][0]["cpos"] = [x + 1 for x in r["runs"][0]["cpos"]]
+
     def stale_ver(r):
-        r["runs"][0]["kv_in"][2]["vers"] = [0]
+        r["runs"][0]["kv_in"]["vers"] = [0]
 
     def lose_row(r):
-        r["runs"][0]["kv_in"][1]["toks"][0] = r["runs"][0]["kv_in"][1]["toks"][0][1:]
+        r["runs"][0]["kv_in"]["rows"].append(r["runs"][0]["kv_in"]["rows"][0][1:])
+
+    def short_cache(r):
+        r["runs"][0]["kv_in"]["lens"][1] -= 1
 
     def drop_id(r):
         r["runs"][0]["ids"] = r["runs"][0]["ids"][1:]
@@ -103,38 +135,36 @@ def self_test(ctx, trace):
     def drop_prev(r):
         r["prev"] = r["prev"][:-1]
 
+    def wrong_kvlen(r):
+        r["kvlen"] += 1
+
     def first_next(r):
         return r["ev"] == "op" and r["op"] == "next" and r["outcome"] == "ok" and len(r["prev"]) == len(r["runs"][0]["ids"]) + 1
 
-    def drop_event(rs):
-        for i, r in enumerate(rs):
-            if kv_run(r):
-                del rs[i]
-                return True
-        return False
-
     _genlib.self_test(ctx, SPEC, CFG, recs, [
         ("position_ids[0] + 1", on_first(kv_run, bump_pos), {"check": "positions"}),
+        ("cache_position shifted by one", on_first(kv_run, bump_cpos), {"check": "positions"}),
         ("stale version tag in a KV-cache input", on_first(kv_run, stale_ver), {"check": "kv_cache"}),
-        ("a row missing from a KV-cache input", on_first(kv_run, lose_row), {"check": "kv_cache"}),
+        ("a KV-cache head missing its first row", on_first(kv_run, lose_row), {"check": "kv_cache"}),
+        ("one KV-cache input one row short", on_first(kv_run, short_cache), {"check": "kv_cache"}),
         ("first pending token not submitted", on_first(kv_run, drop_id), {"check": "submitted_ids"}),
         ("sampled token missing from prev_tokens", on_first(first_next, drop_prev), {"check": "prev_tokens", "cls": "initial_prompt"}),
-        ("one op event dropped", drop_event, {}),   # any new failed predicate
+        ("kv_cache_len() off by one", on_first(kv_run, wrong_kvlen), {"check": "kv_cache_len"}),
     ])
 
 
 def nontrivial(r):
-    """>= 2 model runs, and the pending prompt is changed (non-empty append / clear) after the first run."""
+    """>= 2 model runs, and the pending prompt is changed (non-empty append / with_prompt, or clear) after the first run."""
     ops = r["ops"]
     runs = [i for i, o in enumerate(ops) if o["op"] in ("next", "process")]
     if len(runs) < 2:
         return False
-    return any((o["op"] == "append" and o["toks"]) or o["op"] == "clear" for o in ops[runs[0] + 1:])
+    return any((o["op"] in ("append", "with_prompt") and o["toks"]) or o["op"] == "clear" for o in ops[runs[0] + 1:])
 
 
-def finish(ctx, traces, res, nh, nreplayed, nsampled):
+def finish(ctx, traces, res, nh, nreplayed):
     keyf = ["kv", "variant", "ops"]
-    total = dnt = 0
+    total = dnt = drops = 0
     seen = set()
     for t in traces:
         with open(t) as f:
@@ -149,6 +179,9 @@ def finish(ctx, traces, res, nh, nreplayed, nsampled):
                 seen.add(key)
                 if nontrivial(r):
                     dnt += 1
+                    names = [o["op"] for o in r["ops"]]
+                    if any(a == "next" and b in ("clear", "with_prompt") for a, b in zip(names, names[1:])):
+                        drops += 1
                     if len(ctx.cov["samples"]) < 4 and dnt % 997 == 1:
                         ctx.add_samples([{k: r.get(k) for k in keyf}])
     ctx.cov["evaluations"] = total
@@ -156,31 +189,37 @@ def finish(ctx, traces, res, nh, nreplayed, nsampled):
     ctx.cov["traces_validated_against_impl"] = total
     ctx.cov["histories_generated_by_tlc"] = nh
     ctx.cov["histories_replayed"] = nreplayed
-    ctx.cov["histories_7_calls_sampled"] = nsampled
+    ctx.cov["cases_dropping_a_sampled_token_then_running"] = drops
     stats, bad, badtotal = res["stats"], res["bad"], res["badtotal"]
     ctx.cov["trace_stats"] = stats
     if stats.get("accessor_mismatch", 0):
-        ctx.drift("prompt()/kv_cache_len()/attention-mask length disagree with the contract state in %d call(s) "
+        ctx.drift("prompt() / attention-mask length / constant input disagree with the contract state in %d call(s) "
                   "(not part of the property statement)" % stats["accessor_mismatch"])
     ctx.judge(bad, "vh-gen generator", SPEC, CFG, case_lookup=lambda rec: rec.get("case"), badtotal=badtotal)
     ctx.finish(
-        rule="cases = (TLC-generated call history, model with/without KV cache) x (mock variant: cache layout "
-             "[b,s,c] / [b,h,s,c], in-place or fresh cache tensors, kv_cache_capacity); distinct by (kv, variant, history); "
-             "non-trivial = >= 2 model runs and a non-empty append_prompt or a clear_prompt after the first run",
+        rule="cases = (TLC-generated call history over {with_prompt, append_prompt, clear_prompt, process_prompt, next}, "
+             "model with/without KV cache) x (mock variant: cache layout [b,s,c] / [b,h,s,c], in-place or fresh cache "
+             "tensors, kv_cache_capacity, extra varying + constant inputs); distinct by (kv, variant, history); "
+             "non-trivial = >= 2 model runs and a non-empty append_prompt/with_prompt or a clear_prompt after the first run; "
+             "calls shared with the previous case of the same pass are judged once (calls_judged in trace_stats)",
         assumptions=[
-            "the mock implements rten_generate::model::Model faithfully (logits [1, n, vocab], present.* = past ++ new rows)",
-            "batch size 1 (the only one Generator supports); prompts of 0..2 tokens; with_prompt only as the first call",
+            "the mock implements rten_generate::model::Model faithfully (logits [1, n, vocab], present.* = past ++ new rows, "
+            "partial_run returns the constant inputs as leaves)",
+            "batch size 1 (the only one Generator supports)",
+            "with_prompt 'sets' the prompt: called mid-history it replaces whatever is pending (like clear_prompt + append_prompt)",
             "next() with nothing pending is outside the contract (the real code panics slicing empty logits); such a call ends the history unjudged",
-            "sampling is the default ArgMax over one-hot logits; encoder (cross-attention) caches and constant/varying extra inputs are not exercised",
+            "sampling is the default ArgMax over one-hot logits; encoder (cross-attention) caches are not exercised; "
+            "with_sampler / with_logits_filter / with_run_options do not touch the token history and are not varied",
         ],
         exhaustive=True,
-        explanation="exhaustive = every history of the stated call alphabet up to the bound (5 calls quick, 6 calls thorough) "
-                    "for both model kinds was replayed; 7-call histories are sampled in the thorough tier")
+        explanation="exhaustive = every history over the call alphabet for both model kinds: <= 4 calls with prompt lengths "
+                    "0/1/2 and <= 5 calls with lengths 0/1 (quick); <= 5 calls with lengths 0/1/2 and <= 6 calls with lengths 0/1 (thorough)")
 
 
 def replay(ctx):
-    case = ctx.replay["case"]
+    case = dict(ctx.replay["case"])
+    case["keep"] = 0
     trace = ctx.path("gen_replay.ndjson")
     ctx.harness("vh-gen", ["generator", "--out", trace, "--only-case", json.dumps(case)])
     res = ctx.tlc_trace(SPEC, CFG, trace)
-    finish(ctx, [trace], _genlib.merge([res]), 1, 1, 0)
+    finish(ctx, [trace], _genlib.merge([res]), 1, 1)
